@@ -34,6 +34,15 @@ type zvC28Cfg struct {
 	Post    [2]bool `json:"post"`           // policy flavour of each neighbour (false = pre-policy)
 	AddPath bool    `json:"addpath"`        // sessions negotiated add-path, updates carry path identifiers
 	Wide    bool    `json:"wide,omitempty"` // thorough tier: both path identifiers for both prefixes
+	// NPeers: number of monitored neighbours (0 = 2). Neighbour n > 1 has host address n+1, the VRF and flavour of neighbour n%2.
+	NPeers int `json:"peers,omitempty"`
+}
+
+func (c zvC28Cfg) n() int {
+	if c.NPeers > 2 {
+		return c.NPeers
+	}
+	return 2
 }
 
 const (
@@ -49,8 +58,8 @@ type zvC28Slot struct {
 // zvC28World is everything derived from the configuration.
 type zvC28World struct {
 	cfg    zvC28Cfg
-	peers  [2]zvBmpPeer
-	srcStr [2]string // how the table prints the neighbour's address
+	peers  []zvBmpPeer
+	srcStr []string // how the table prints the neighbour's address
 	slots  []zvC28Slot
 	nlri   [2]zvBmpNLRI
 	pfxStr [2]string
@@ -58,21 +67,30 @@ type zvC28World struct {
 }
 
 func zvC28NewWorld(cfg zvC28Cfg) *zvC28World {
-	w := &zvC28World{cfg: cfg}
-	rd := [2]uint64{zvC28RD1, zvC28RD1}
-	host := [2]byte{1, 2}
-	switch cfg.Layout {
-	case "same_addr":
-		rd[1], host[1] = zvC28RD2, 1
-	case "disjoint":
-		rd[1] = zvC28RD2
+	w := &zvC28World{cfg: cfg, peers: make([]zvBmpPeer, cfg.n()), srcStr: make([]string, cfg.n())}
+	rd := make([]uint64, cfg.n())
+	host := make([]byte, cfg.n())
+	for n := range rd {
+		rd[n], host[n] = zvC28RD1, byte(n+1)
+		switch cfg.Layout {
+		case "same_addr":
+			if n%2 == 1 {
+				rd[n], host[n] = zvC28RD2, byte(n) // the address of the neighbour before it, in the other VRF
+			}
+		case "disjoint":
+			if n%2 == 1 {
+				rd[n] = zvC28RD2
+			}
+		}
 	}
-	for n := 0; n < 2; n++ {
-		p := zvBmpPeer{RD: rd[n], V6: cfg.V6, Post: cfg.Post[n], AS: 65001 + uint32(n), BGPID: 0x0a000000 + uint32(host[n]), TS: 1000}
+	for n := 0; n < cfg.n(); n++ {
+		p := zvBmpPeer{RD: rd[n], V6: cfg.V6, Post: cfg.Post[n%2], AS: 65001 + uint32(n), BGPID: 0x0a000000 + uint32(host[n]), TS: 1000}
 		if host[n] == 2 {
 			p.AS = 65002
-		} else {
+		} else if host[n] == 1 {
 			p.AS = 65001
+		} else {
+			p.AS = 65000 + uint32(host[n])
 		}
 		if cfg.V6 {
 			p.Addr = zvBmpAddr6(host[n])
@@ -107,7 +125,7 @@ func zvC28NewWorld(cfg zvC28Cfg) *zvC28World {
 
 func (w *zvC28World) key(n, slot int) string {
 	fl := "pre"
-	if w.cfg.Post[n] {
+	if w.cfg.Post[n%2] {
 		fl = "post"
 	}
 	s := w.slots[slot]
@@ -203,12 +221,16 @@ func (e zvC28Ev) String() string {
 
 type zvC28Model struct {
 	connected bool
-	up        [2]bool
-	have      [2]map[int]bool
+	up        []bool
+	have      []map[int]bool
 }
 
-func zvC28NewModel() *zvC28Model {
-	return &zvC28Model{have: [2]map[int]bool{{}, {}}}
+func zvC28NewModel(n int) *zvC28Model {
+	m := &zvC28Model{up: make([]bool, n), have: make([]map[int]bool, n)}
+	for i := range m.have {
+		m.have[i] = map[int]bool{}
+	}
+	return m
 }
 
 func (m *zvC28Model) apply(w *zvC28World, e zvC28Ev) {
@@ -232,8 +254,9 @@ func (m *zvC28Model) apply(w *zvC28World, e zvC28Ev) {
 		m.have[e.N] = map[int]bool{}
 	case "term", "loss":
 		m.connected = false
-		m.up = [2]bool{}
-		m.have = [2]map[int]bool{{}, {}}
+		for i := range m.up {
+			m.up[i], m.have[i] = false, map[int]bool{}
+		}
 	}
 }
 
@@ -242,7 +265,7 @@ func (m *zvC28Model) enabled(w *zvC28World) []zvC28Ev {
 		return []zvC28Ev{{K: "connect"}}
 	}
 	out := []zvC28Ev{{K: "init"}, {K: "obs"}}
-	for n := 0; n < 2; n++ {
+	for n := 0; n < len(w.peers); n++ {
 		if !m.up[n] {
 			out = append(out, zvC28Ev{K: "up", N: n})
 			continue
@@ -261,7 +284,7 @@ func (m *zvC28Model) want(w *zvC28World, rd uint64, fam int) []string {
 	if fam != w.fam() {
 		return ks
 	}
-	for n := 0; n < 2; n++ {
+	for n := 0; n < len(w.peers); n++ {
 		if !m.up[n] || w.peers[n].RD != rd {
 			continue
 		}
@@ -276,7 +299,7 @@ func (m *zvC28Model) want(w *zvC28World, rd uint64, fam int) []string {
 func (m *zvC28Model) String() string {
 	var sb strings.Builder
 	fmt.Fprintf(&sb, "conn=%v", m.connected)
-	for n := 0; n < 2; n++ {
+	for n := 0; n < len(m.up); n++ {
 		var ss []int
 		for s := range m.have[n] {
 			ss = append(ss, s)
@@ -464,7 +487,7 @@ func zvC28Step(r *vh.Run, w *zvC28World, hist []zvC28Ev) (canon string, enabled 
 		r.Fatalf("cannot construct the receiver: %v", err)
 	}
 	x := &zvC28Run{w: w, b: b, r: rt, hist: hist}
-	m := zvC28NewModel()
+	m := zvC28NewModel(len(w.peers))
 	last := "start"
 	if len(hist) > 0 {
 		last = hist[len(hist)-1].K
@@ -505,7 +528,7 @@ func zvC28Step(r *vh.Run, w *zvC28World, hist []zvC28Ev) (canon string, enabled 
 		}
 		// observers: nothing of a peer that is down (or of an ended session) may remain in a live observer's view
 		upSrc := map[string]bool{}
-		for n := 0; n < 2; n++ {
+		for n := 0; n < len(w.peers); n++ {
 			if m.up[n] {
 				upSrc[fmt.Sprintf("%d|%s", w.peers[n].RD, w.srcStr[n])] = true
 			}
@@ -603,7 +626,7 @@ func zvC28Step(r *vh.Run, w *zvC28World, hist []zvC28Ev) (canon string, enabled 
 			e := hist[idx]
 			if idx == len(hist)-1 && (e.K == "down" || e.K == "term" || e.K == "loss") {
 				routes := 0
-				for n := 0; n < 2; n++ {
+				for n := 0; n < len(w.peers); n++ {
 					if e.K != "down" || n == e.N {
 						routes += len(m.have[n])
 					}
@@ -700,7 +723,67 @@ func zvC28Configs(thorough bool) []zvC28Cfg {
 	return out
 }
 
-var zvC28Required = []string{"table_nonempty_checked", "table_multi_path_checked", "observers_registered", "observer_view_nonempty_checked",
+// zvC28ManyPeers: more than two monitored neighbours (the BFS alphabet has two): per configuration one long history -
+// all neighbours come up and announce, observers register, the session ends (termination | connection loss | every
+// neighbour goes down one by one), the router reconnects and everything is replayed - with the oracle evaluated after
+// every event (every prefix of the history is replayed on a fresh receiver).
+func zvC28ManyPeers(r *vh.Run, idx int) {
+	ns := []int{3, 7}
+	if r.Thorough() {
+		ns = []int{3, 4, 5, 7, 8, 9}
+	}
+	for _, n := range ns {
+		for _, layout := range []string{"same_vrf", "disjoint"} {
+			for _, v6 := range []bool{false, true} {
+				for _, end := range []string{"term", "loss", "downs"} {
+					idx++
+					if !r.Mine(idx) {
+						continue
+					}
+					if r.OutOfBudget() {
+						r.Cap("time budget: not all many-neighbour histories run")
+						return
+					}
+					cfg := zvC28Cfg{Layout: layout, V6: v6, Post: [2]bool{false, true}, NPeers: n}
+					w := zvC28NewWorld(cfg)
+					var h []zvC28Ev
+					session := func() {
+						h = append(h, zvC28Ev{K: "connect"})
+						for k := 0; k < n; k++ {
+							h = append(h, zvC28Ev{K: "up", N: k})
+						}
+						for k := 0; k < n; k++ {
+							h = append(h, zvC28Ev{K: "ann", N: k, S: k % len(w.slots)})
+						}
+						h = append(h, zvC28Ev{K: "obs"})
+					}
+					session()
+					switch end {
+					case "downs":
+						for k := 0; k < n; k++ {
+							h = append(h, zvC28Ev{K: "down", N: k})
+						}
+						h = append(h, zvC28Ev{K: "loss"})
+					default:
+						h = append(h, zvC28Ev{K: end})
+					}
+					session()
+					h = append(h, zvC28Ev{K: "loss"})
+					for k := 1; k <= len(h); k++ {
+						if _, _, ok := zvC28Step(r, w, h[:k]); !ok {
+							break
+						}
+						r.Transitions(1)
+					}
+					r.Count("many_neighbour_histories", 1)
+					r.Eval(1)
+				}
+			}
+		}
+	}
+}
+
+var zvC28Required = []string{"many_neighbour_histories", "table_nonempty_checked", "table_multi_path_checked", "observers_registered", "observer_view_nonempty_checked",
 	"teardown_with_routes_checked", "teardown_with_observer_view_checked"}
 
 func TestVerifC28(t *testing.T) {
@@ -709,7 +792,7 @@ func TestVerifC28(t *testing.T) {
 	zvBmpQuiet()
 	r.Rule("per configuration (neighbour layout same-VRF | same-address-two-VRFs | disjoint x IPv4|IPv6 x add-path off|on x flavours pre/pre, post/post, pre/post): BFS over all " +
 		"well-formed sequences of connect(+initiation), initiation, peer-up(p), announce/withdraw(p, route slot), two-route announce/withdraw(p), peer-down(p), termination, connection loss, " +
-		"observe (register table observers) until the canonical state set closes; oracle in every state; evaluations = configurations explored, non-trivial = all of them")
+		"observe (register table observers) until the canonical state set closes; oracle in every state; plus, for 3 and 7 (thorough 3..9) neighbours, one long history per configuration (all up, all announce, session ends by termination | loss | all peer-downs, reconnect, replay) with the oracle after every event; evaluations = configurations explored, non-trivial = all of them")
 	r.Require(zvC28Required...)
 	if r.IsReplay() {
 		var c zvC28Case
@@ -746,4 +829,5 @@ func TestVerifC28(t *testing.T) {
 		r.Eval(1)
 		r.Nontrivial(1)
 	}
+	zvC28ManyPeers(r, len(cfgs))
 }
